@@ -147,9 +147,13 @@ def build():
              hooks=dict(guard="AW_CORE_VERIF", enable="no source hooks are needed: checks import /repo's working tree directly (AW_REPO overrides the path)",
                         baseline_off_cmd="cd /repo && /venv/bin/python -m pytest -ra -q -p no:cacheprovider --timeout=900 --continue-on-collection-errors",
                         source_commits=[], add_only=True),
-             engines=[dict(name="tlc", path="spec/", serves_properties=sorted(CHECKS), kind_free_text="TLA+ specifications checked with TLC 1.8 (model checking, simulation-based behaviour generation, batch trace validation); harness/ is the Python binding that replays behaviours into aw-core and records traces")],
+             engines=[dict(name="tlc", path="spec/", serves_properties=sorted(CHECKS), kind_free_text="TLA+ specifications checked with TLC 1.8 (model checking, simulation-based behaviour generation, batch trace validation); harness/ is the Python binding that replays behaviours into aw-core and records traces"),
+                      dict(name="apalache", path="spec/MC_AwDurableInd.tla", serves_properties=["C06"], kind_free_text="Apalache 0.58: inductive invariant of the lazy-commit counter for unbounded histories (thorough tier of C06 only)")],
              checks=checks, not_applicable=na,
-             notes="All verdicts on implementation traces are produced by TLC evaluating the TLA+ property layer; see DESIGN.md.")
+             notes="All verdicts on implementation traces are produced by TLC evaluating the TLA+ property layer; see DESIGN.md (section 0: as built; 8: findings F1-F17, all repaired by fix: commits and listed in "
+                   "known_findings.json as fixed; 12: corrections to the machinery; 13: seeded breaking changes and property-preserving changes under seeded/). Exit codes: 0 held, 1 violation (VIOLATION line with a replay file), "
+                   "2 machinery failure (model fails its own properties, negative control not refuted, canary accepted, TLC / harness error). Environment: VERIF_SEED, VERIF_TIER; AW_REPO=<tree> points a check at another working tree, "
+                   "VERIF_EVIDENCE_DIR / VERIF_OUT_DIR redirect evidence and replay files (used by tools/seed_eval.py and tools/benign_eval.py). Scratch data lives under /dev/shm/awverif.<pid> and is removed on exit.")
     with open(os.path.join(common.VERIF, "MANIFEST.json"), "w") as f:
         json.dump(m, f, indent=1)
         f.write("\n")
